@@ -2,6 +2,7 @@
 //@ params headers
 //@ hideutf8
 //@ props C08 C11 C02 C17
+//@ consumers C01 C05 C19
 //@ ret r
 //@ replace 1 `headers.iter()` => `header_map_entries(headers)`
 //@ replace 1 `key.as_str().to_lowercase()` => `str_to_lowercase(key.as_str())`
